@@ -246,7 +246,7 @@ fn find_normal_members(
 
     let mut members = Vec::new();
     let member_index = db.get_member_index();
-    let owner_members = member_index.get_members(&member_owner)?;
+    let owner_members = member_index.get_sorted_members(&member_owner)?;
 
     for member in owner_members {
         let member_key = member.get_key().clone();
@@ -356,7 +356,7 @@ fn find_custom_type_members(
                 return Some(members);
             }
         }
-    } else if let Some(type_members) = member_index.get_members(&type_owner) {
+    } else if let Some(type_members) = member_index.get_sorted_members(&type_owner) {
         for member in type_members {
             let member_key = member.get_key().clone();
 
